@@ -43,6 +43,10 @@ structure Scenario where
   /-- a destination `Error` response (it can only answer `CreateRootAncestors` that early) becomes
   visible while the boss is still in the `select` loop of the query phase -/
   errInQuery : Bool := false
+  /-- which destination command (counted over the mutating ones, in sending order) the doer answers
+  with an `Error` (`none`: none / not stated).  Only the barrier after the delete phase looks at it:
+  the answer to a command has arrived by the time a marker sent after it is echoed. -/
+  errCmd : Option Nat := none
 
 inductive Outcome
   | ok
@@ -281,13 +285,27 @@ structure Wrap where
 def mkResult (o : Outcome) (x : XState) (c : Conf) : RunResult :=
   { outcome := o, srcTrace := x.src, destTrace := x.dest, prompts := c.prompts, log := x.log }
 
-/-- delete phase, copy phase, final wait -/
+/-- has the destination command that is answered with an error been sent already? -/
+def XState.failedSent (x : XState) (errCmd : Option Nat) : Bool :=
+  match errCmd with
+  | some k => k < (x.dest.filter Cmd.mutating).length
+  | none => false
+
+/-- the barrier between the two phases: when something is deleted (not in a dry run) the boss waits
+for the echo of the marker that starts the copying; a failed deletion is seen there at the latest -/
+def barrierFails (sc : Scenario) (ctx : Ctx) (del : OMap (Details × DelReason)) (xm : XState) : Bool :=
+  !ctx.dryRun && !del.iter.isEmpty && xm.failedSent sc.errCmd
+
+/-- delete phase, barrier, copy phase, final wait -/
 def execPhase (sc : Scenario) (ctx : Ctx) (x : XState) (conf : Conf)
     (del : OMap (Details × DelReason)) (cpy : OMap (Details × CopyReason)) : RunResult :=
   let r1 := deleteLoop ctx sc.errAtPoll del.iter x {}
   match r1.1 with
   | some e => mkResult (.err e) r1.2.1 conf
   | none =>
+    if barrierFails sc ctx del (r1.2.1.sendDest (.marker .copying)) then
+      mkResult (.err .doer) (r1.2.1.sendDest (.marker .copying)) conf
+    else
     let r2 := copyLoop ctx sc.errAtPoll sc.files cpy.iter (r1.2.1.sendDest (.marker .copying)) r1.2.2
     match r2.1 with
     | some e => mkResult (.err e) r2.2.1 conf
